@@ -187,8 +187,16 @@ pub fn judge(sc: &S1Scenario, obs: &Obs) -> Judged {
                 Kind::Eventually => rf.eventually_counterexample_exists(g, i),
             };
             let found = disc.get(name);
-            // C03: the reported path is a genuine witness
-            if let Some(path) = found {
+            // C03: the reported path is a genuine witness (also the path handed to a Reporter)
+            let reported: Option<&Vec<(u16, Option<u16>)>> = obs.report.as_ref().and_then(|r| r.discoveries.as_ref()).and_then(|d| d.get(name)).map(|x| &x.1);
+            if let Some((class, _)) = obs.report.as_ref().and_then(|r| r.discoveries.as_ref()).and_then(|d| d.get(name)) {
+                c.inc("reporter_discoveries_checked");
+                let want = if p.kind == Kind::Sometimes { "example" } else { "counterexample" };
+                if class != want {
+                    v.push(Violation::new("C02", "classification:report", format!("{} ({:?}) was reported to the Reporter as {:?}", name, p.kind, class)));
+                }
+            }
+            for (path, strat) in found.map(|f| (f, strat.clone())).into_iter().chain(reported.map(|f| (f, format!("{}+report", strat))).into_iter()) {
                 c.inc(&format!("discoveries_{:?}", p.kind));
                 match rf.validate_path(g, path) {
                     Err(e) => {
